@@ -5,6 +5,7 @@ import JominiModel.Proofs.TextDeStream
 import JominiModel.Proofs.TextDeTape
 import JominiModel.Proofs.TextDeTapeNested
 import JominiModel.Proofs.TextEndToEnd
+import JominiModel.Proofs.TextEndToEndFull
 import JominiModel.Proofs.TextDeKnown
 import JominiModel.Proofs.TextDeAgree
 import JominiModel.Proofs.TextDeSyntax
